@@ -254,14 +254,16 @@ theorem registerIBC_perm (urls : String → List String) (init : String → Bool
 
 /-! ### (b) coverage of the regenerated site list -/
 
-/-- The loops modelled above, pinned to the exact text that was read. A loop that is new, or whose body or whose consumers were
+/-- (The two `useHash` values of app/gov/gov.go and x/da/keeper/abci.go were re-pinned after the `fix:` commits of C16 and
+C09 had been merged and the consumers re-read: the results are still consumed as exact sums / via `len` and set membership only.)
+The loops modelled above, pinned to the exact text that was read. A loop that is new, or whose body or whose consumers were
 edited, is not in this list and `all_sites_covered` stops checking until the edit has been re-read and re-proved. -/
 def provedSites : List (SiteKey × String) := [
-  (⟨"x/da/keeper/abci.go", "Keeper.TallyValidityProofs", "bf266bf6d9552a10", "bf880b2d2b0ae156"⟩, "da_shardProofCount_perm"),
+  (⟨"x/da/keeper/abci.go", "Keeper.TallyValidityProofs", "bf266bf6d9552a10", "9c6a58ec8daf3b20"⟩, "da_shardProofCount_perm"),
   (⟨"x/da/keeper/abci.go", "Keeper.TallyValidityProofs", "be6981b53e1b490c", "e3b0c44298fc1c14"⟩, "da_faultValidators_perm"),
   (⟨"x/liquidityincentive/keeper/keeper_tally.go", "Keeper.Tally", "0644c488301fd097", "8e2a7b1caaf46145"⟩, "tally_validators_perm + tally_results_perm"),
   (⟨"x/liquidityincentive/keeper/keeper_tally.go", "NewTallyResultFromMap", "2235446aa0991664", "56995f062822be51"⟩, "tally_results_perm"),
-  (⟨"app/gov/gov.go", "ProvideCalculateVoteResultsAndVotingPowerFn", "0052199aef1c30b7", "0e6a7c5fcd315aff"⟩, "tally_validators_perm"),
+  (⟨"app/gov/gov.go", "ProvideCalculateVoteResultsAndVotingPowerFn", "0052199aef1c30b7", "e5e97ce8fd3b55ac"⟩, "tally_validators_perm"),
   (⟨"app/app.go", "BlockedAddresses", "5b1a88bdcf47a2ac", "6d5d4cb790d512d9"⟩, "blockedAddresses_perm"),
   (⟨"app/ibc.go", "RegisterIBC", "01f0d245491437f2", "e3b0c44298fc1c14"⟩, "registerIBC_perm")
 ]
